@@ -123,6 +123,7 @@ type LockInv struct {
 }
 
 type ContractFile struct {
+	Broken   map[string]string // contract key -> why it no longer matches the tree
 	Pkg      string
 	Path     string
 	Imports  []string
@@ -440,6 +441,20 @@ func parseContractFile(pkg, path string) (*ContractFile, error) {
 				cur.Attrs[word] = old + "," + strings.Join(items, ",")
 			} else {
 				cur.Attrs[word] = strings.Join(items, ",")
+			}
+		case "infeasible":
+			// infeasible <smoke point> <reason>: a program point that the sequential model cannot
+			// reach (e.g. the branch taken only when another goroutine moved a shared counter)
+			if cur == nil {
+				return nil, errf("%s outside func", word)
+			}
+			f := strings.Fields(rest)
+			if len(f) > 0 {
+				if cur.Attrs["infeasible"] != "" {
+					cur.Attrs["infeasible"] += ","
+				}
+				cur.Attrs["infeasible"] += f[0]
+				cur.Attrs["infeasible:"+f[0]] = strings.TrimSpace(strings.TrimPrefix(rest, f[0]))
 			}
 		case "trusted", "inline", "pure", "atomic", "constructor", "nopanic", "holds", "noframe", "unfold", "callback", "bind", "yields", "assume_entry", "thread", "asm", "property", "paths":
 			if cur == nil {
@@ -764,4 +779,5 @@ func gcHas[K comparable, V any](m map[K]V, k K) bool { _, ok := m[k]; return ok 
 func gcSameArray[T any](a, b []T) bool { return len(a) > 0 && len(b) > 0 && &a[0] == &b[0] }
 func gcSameStorage[T any](a, b []T) bool { return false }
 func gcWithin[T any](a, b []T) bool { return false }
+// ---- end of contract prelude ----
 `
